@@ -123,7 +123,13 @@ def roundtrip_check(built, names):
     from txdbus import introspection, interface, objects
     fo = FakeObject([b[0] for b in built])
     fo._empty_container = (len(names) + sum(len(d['methods']) for _i, d in built)) % 3 == 0
-    xml = introspection.generateIntrospectionXML('/obj', {'/obj': fo})
+    # the object sits at the root path, at a leaf, or above / beside other exported objects
+    opath = ['/', '/obj', '/a/b', '/obj'][(len(names) + sum(len(d['signals']) for _i, d in built)) % 4]
+    fo.getObjectPath = lambda: opath
+    exports = {opath: fo}
+    if opath != '/obj':
+        exports['/a/b/c' if opath == '/a/b' else '/other'] = FakeObject([])
+    xml = introspection.generateIntrospectionXML(opath, exports)
     if xml is None:
         return 'no XML generated for an exported object'
     try:
@@ -175,6 +181,33 @@ def roundtrip_check(built, names):
                     ok = False
                 if ok != (given == n):
                     return 'proxy from the XML of %s: %s(%d arguments) %s, declared %r' % (name, m, given, 'accepted' if ok else 'rejected', si)
+    return None
+
+
+def type_code_coverage_case():
+    """every basic type code - the rarely used ones included (h, g, o, d, n, q) - alone, in an array, as a dict value and in a
+    struct, for a method argument, a method result, a signal argument and a property"""
+    from txdbus import interface, introspection
+    for code in 'ybnqiuxtdsogvh':
+        forms = [code, 'a' + code, 'a{s' + code + '}', '(' + code + 'i)', 'a(' + code + ')']
+        members = []
+        for k, sg in enumerate(forms):
+            members += [interface.Method('M%d' % k, arguments=sg, returns=sg), interface.Signal('S%d' % k, sg), interface.Property('P%d' % k, sg)]
+        name = 'org.verif.T_' + code
+        iface = interface.DBusInterface(name, *members, noRegister=True)
+        xml = introspection.generateIntrospectionXML('/obj', {'/obj': FakeObject([iface])})
+        try:
+            parsed = {i.name: i for i in introspection.getInterfacesFromXML(xml, True)}
+        except Exception as e:
+            return 'parsing the XML generated for an interface using the type code %r raised %s: %s' % (code, type(e).__name__, e)
+        p = parsed.get(name)
+        if p is None:
+            return 'interface using the type code %r: missing after the round trip' % code
+        for k, sg in enumerate(forms):
+            m, s_, pr = p.methods.get('M%d' % k), p.signals.get('S%d' % k), p.properties.get('P%d' % k)
+            if m is None or s_ is None or pr is None or m.sigIn != sg or m.sigOut != sg or s_.sig != sg or pr.sig != sg or m.nargs != 1 or m.nret != 1 or s_.nargs != 1:
+                return 'type %r after the round trip: method %r -> %r (%r/%r args), signal %r, property %r' % (
+                    sg, m and m.sigIn, m and m.sigOut, m and m.nargs, m and m.nret, s_ and s_.sig, pr and pr.sig)
     return None
 
 
@@ -250,10 +283,14 @@ def bounded(tier, seed):
     if f:
         return n, f, {'case': 'known-interface reuse'}
     n += 1
+    f = type_code_coverage_case()
+    if f:
+        return n, f, {'case': 'type code coverage'}
+    n += 1
     f = class_hierarchy_case()
     if f:
         return n, f, {'case': 'class hierarchy'}
-    for s in range(6000 if tier == 'thorough' else 80):
+    for s in range(30000 if tier == 'thorough' else 80):
         n += 1
         f = roundtrip_case(rnd, pool, rnd.choice([1, 1, 2, 3]))
         if f:
@@ -269,7 +306,7 @@ def replay(function, clause, model):
 def run_bounded(tier, seed):
     n, f, inp = bounded(tier, seed)
     return {'tool': 'generate -> parse -> compare on the real txdbus.interface / txdbus.introspection, counts against the reference grammar',
-            'bound': '%d generated objects with 1-3 interfaces of 0-6 methods, signals and properties each; signatures = sequences of up to 3 complete types of length <= 5 from the full grammar; all access and notification modes; proxy argument-count acceptance; known-interface reuse' % (6000 if tier == 'thorough' else 80),
+            'bound': '%d generated objects with 1-3 interfaces of 0-6 methods, signals and properties each; signatures = sequences of up to 3 complete types of length <= 5 from the full grammar; all access and notification modes; proxy argument-count acceptance; known-interface reuse' % (30000 if tier == 'thorough' else 80),
             'evaluations': n, 'failures': [] if not f else [{'function': 'txdbus.interface / txdbus.introspection', 'clause': 'xml-round-trip', 'input': inp, 'detail': f}]}
 
 
